@@ -744,9 +744,9 @@ class Driver:
             nxt = []
             for s1, d in acc:
                 if k is None:
-                    for s2, _ in self.evalf(v, s1, func):
+                    for s2, sv in self.evalf(v, s1, func):
                         d2 = dict(d)
-                        d2["**%d" % len(d2)] = Opq("spread")
+                        d2["**%d" % len(d2)] = sv if isinstance(sv, Opq) else Opq("spread")
                         nxt.append((s2, d2))
                     continue
                 for s2, kv in self.evalf(k, s1, func):
@@ -1086,6 +1086,7 @@ class Driver:
             # D.get('k'[, falsy default]) used as a switch: on when the key is PRESENT and its value is truthy -- two
             # independent facts about the caller's dictionary (presence is what `'k' in D` tests)
             cont = n[:-4]
+            s.events.append(("switch", cont, args[0], ln))
             return [(s, CAnd(CBool("%s in %s.keys()" % (args[0], cont)), CBool("the value stored under the key %s is truthy" % "-".join(args[0]))))]
         if n.startswith("modeldisc.") or n.startswith("mod:") or n.startswith("global:") or n.endswith(".keys") or n.endswith(".items") or n.endswith(".values") or n.endswith(".get") or n.endswith(".pop") or n.startswith("expr") or n.startswith("item"):
             if n == "modeldisc.calc_timestep":
@@ -1127,7 +1128,7 @@ class Driver:
             s.events.append(("check_end", b.name, ln, self.snapshot(s), args[0] if args else None))
             return [(s, b)]
         if name == "_parse_monitors":
-            s.events.append(("monitors", ln, self.snapshot(s)))
+            s.events.append(("monitors", ln, self.snapshot(s), args[0] if args else None))
             return [(s, None)]
         if name in self.SUMMARISED:
             s.events.append(("call", name, ln))
